@@ -232,6 +232,7 @@ func sumPrefix(p *Prog, v ssa.Value, n int64) *ssa.Call {
 }
 
 func runC04(c *Ctx) {
+	sharedDigestRule(c, c.P, "R6", "transports/obfs4", "common/replayfilter")
 	// "accepted at most once" rests on the filter's test-and-set being one atomic step for
 	// simultaneous connections: the replay filter's own obligations (C11) are part of this
 	// property too, imported under rule names RF0..RF5
